@@ -125,6 +125,67 @@ def sample_field_of(body, op, depth=0):
     return None
 
 
+def _own_sample_fields(fx, fn):
+    """Mp4Sample attributes a function reads from a sample it was handed whole"""
+    body = body_of(fn)
+    out = set()
+    if body is None:
+        return out
+    for b, t in body.calls():
+        nm = (t["callee"].get("path") or "").split("::")[-1]
+        for a in t["args"]:
+            f = sample_field_of(body, a)
+            if f:
+                out.add(f + ".len()" if nm == "len" and not f.endswith(".len()") else f)
+    for b in body.reach:
+        for s_ in body.stmts(b):
+            if s_["k"] != "assign":
+                continue
+            rv = s_["rv"]
+            for key in ("a", "b"):
+                if isinstance(rv.get(key), dict):
+                    f = sample_field_of(body, rv[key])
+                    if f:
+                        out.add(f)
+            if rv["k"] == "ref":
+                for p_ in rv["place"]["p"]:
+                    if isinstance(p_, dict) and short(p_.get("adt", "")) == "Mp4Sample":
+                        out.add(p_["f"])
+            for o in rv.get("ops", []) or []:
+                f = sample_field_of(body, o)
+                if f:
+                    out.add(f)
+    return out
+
+
+def sample_uses(fx, fn, depth=0):
+    """(attribute, block in fn, consumer) for every place fn hands an Mp4Sample attribute to a call; a local callee that is
+    handed the whole sample is followed, and the attributes it (or its own callees) reads are attributed to the deepest
+    function that received the whole sample and reads the attribute"""
+    body = body_of(fn)
+    out = []
+    if body is None:
+        return out
+    for b, t in body.calls():
+        p = callee_path(t["callee"]) or t["callee"].get("path") or ""
+        for a in t["args"]:
+            f = sample_field_of(body, a)
+            if f:
+                out.append((f, b, p))
+                continue
+            pl = op_place(a)
+            if p in fx.fns and depth < 3 and pl is not None and "Mp4Sample" in str(pl.get("ty") or (body.locals[pl["l"]]["ty"] if not pl["p"] else "")):
+                g = fx.fns[p]
+                nested = sample_uses(fx, g, depth + 1)
+                deeper = {f2 for f2, _b, q in nested if q in fx.fns and "Mp4Sample" in " ".join(fx.fns[q].get("inputs_s") or [])}
+                for f2, _b, q in nested:
+                    if q in fx.fns and "Mp4Sample" in " ".join(fx.fns[q].get("inputs_s") or []):
+                        out.append((f2, b, q))
+                for f2 in sorted(_own_sample_fields(fx, g) - deeper):
+                    out.append((f2, b, p))
+    return out
+
+
 def run(fx, chk, tier):
     chk.rule("R1", "each sample attribute reaches its bookkeeping call exactly once on the success path of the track writer's write_sample; the sample counter is incremented once")
     chk.rule("R2", "write_end flushes every track's pending chunk before the movie box; the recorded offset is the position taken immediately before write_all; reset after the write")
@@ -146,12 +207,9 @@ def run(fx, chk, tier):
     body = body_of(tw)
     oks = LP.ok_blocks(body)
     uses = {}      # attribute -> list of (block, callee)
-    for b, t in body.calls():
-        p = callee_path(t["callee"]) or t["callee"].get("path") or ""
-        for a in t["args"]:
-            f = sample_field_of(body, a)
-            if f:
-                uses.setdefault(f, []).append((b, p))
+    for f, b, p in sample_uses(fx, tw):
+        if (b, p) not in uses.setdefault(f, []):
+            uses[f].append((b, p))
     want = ["bytes", "bytes.len()", "duration", "rendering_offset", "is_sync"]
     for attr in want:
         sites = uses.get(attr, [])
